@@ -1,5 +1,6 @@
 CONSTANT Peers = {1, 2}
-CONSTANT Heights = {1, 12}
+CONSTANT Up = {1, 12}
+CONSTANT Down = {12}
 CONSTANT Window = 10
 CONSTANT MaxEv = 2
 CONSTANT DupValidated = "block"
